@@ -172,6 +172,23 @@ func c05codec(c *Ctx, p *load.Program, pkgPath, prefix string) {
 				}
 			}
 			good := cnt != "" && (e.LoopX == "i < int("+cnt+")" || e.LoopX == "i < "+cnt)
+			if !good && cnt != "" && strings.HasPrefix(e.LoopX, "range ") {
+				// a range over the destination slice, which was made with exactly <count> elements
+				dst := strings.TrimPrefix(e.LoopX, "range ")
+				ast.Inspect(ufd.Body, func(n ast.Node) bool {
+					as, ok := n.(*ast.AssignStmt)
+					if !ok || len(as.Lhs) != 1 || len(as.Rhs) != 1 || types.ExprString(as.Lhs[0]) != dst {
+						return true
+					}
+					if mk, ok := as.Rhs[0].(*ast.CallExpr); ok && types.ExprString(mk.Fun) == "make" && len(mk.Args) == 2 {
+						sz := types.ExprString(mk.Args[1])
+						if sz == "int("+cnt+")" || sz == cnt {
+							good = true
+						}
+					}
+					return true
+				})
+			}
 			R.Check(prefix+".mirror", R.Key(prefix+".mirror", "Unmarshal", "loop-bound"), c.rel(p.Pos(e.Pos)), "the signature loop runs exactly <count byte> times", good, "loop condition: "+e.LoopX)
 		}
 	}
@@ -198,7 +215,23 @@ func c05codec(c *Ctx, p *load.Program, pkgPath, prefix string) {
 			return true
 		}
 		ce, ok := as.Rhs[0].(*ast.CallExpr)
-		if !ok || !strings.HasSuffix(types.ExprString(ce.Fun), ".Read") || len(ce.Args) != 1 {
+		if !ok {
+			return true
+		}
+		if types.ExprString(ce.Fun) == "io.ReadFull" && len(ce.Args) == 2 {
+			// io.ReadFull returns an error unless the whole buffer was filled: testing that error
+			// is the short-count test
+			if sl, ok := ce.Args[1].(*ast.SliceExpr); ok {
+				if arr, ok := pk.TypesInfo.TypeOf(sl.X).Underlying().(*types.Array); ok {
+					nfix++
+					cond := types.ExprString(ifs.Cond)
+					R.Check(prefix+".short-read", R.Key(prefix+".short-read", "Unmarshal", "read:"+types.ExprString(sl.X)), c.rel(p.Pos(ce.Pos())),
+						fmt.Sprintf("io.ReadFull into %s [%d bytes] rejects a short count", types.ExprString(sl.X), arr.Len()), strings.Contains(cond, types.ExprString(as.Lhs[1])+" != nil"), "condition: "+cond)
+				}
+			}
+			return true
+		}
+		if !strings.HasSuffix(types.ExprString(ce.Fun), ".Read") || len(ce.Args) != 1 {
 			return true
 		}
 		sl, ok := ce.Args[0].(*ast.SliceExpr)
@@ -377,7 +410,7 @@ func c05errors(c *Ctx, p *load.Program, pkgPath, prefix string) {
 				return
 			}
 			name := facts.CalleeName(ci.Common())
-			if name == "encoding/binary.Read" || strings.HasPrefix(name, "fmt.") || name == "len" || name == "cap" {
+			if name == "encoding/binary.Read" || name == "io.ReadFull" || name == "io.ReadAtLeast" || name == "(*bytes.Reader).Read" || strings.HasPrefix(name, "fmt.") || name == "len" || name == "cap" {
 				return
 			}
 			for _, a := range ci.Common().Args {
